@@ -18,13 +18,29 @@ def move : Handler := fun j => do
   return Json.mkObj [("after", jOpt blockToJson (applyBlockMove path flags b)),
     ("wf", Json.bool (wfB b)), ("nodup", Json.bool (nodupB b))]
 
-/-- args: {"path": [nat] (anchor = the loop), "j": nat, "fresh": nat, "body": block} -> {"after": block | null} -/
+/-- args: {"path": [nat] (anchor = the loop), "j": nat, "fresh": nat, "body": block, "fields": …}
+ -> {"after": block | null, "covered": bool, "why": string}: `covered` = every hypothesis of `C06.loop_overlap_preserves`
+ holds for this step (and the checked variant gives the same result as the replayed rule) -/
 def loopOverlap : Handler := fun j => do
   let b ← blockOfJson (← field j "body")
   let path ← listOf nat (← field j "path")
   let jj ← nat (← field j "j")
   let fresh ← nat (← field j "fresh")
-  return Json.mkObj [("after", jOpt blockToJson (applyLoopOverlap path jj fresh b)),
+  let fields ← C07.fieldsOfJson (← field j "fields")
+  let after := applyLoopOverlap path jj fresh b
+  let why : String :=
+    match after, applyLoopOverlapGen false false path jj fresh b, applyLoopOverlapGen true false path jj fresh b,
+          applyLoopOverlapGen true true path jj fresh b with
+    | some r, some b', some b2, some bg =>
+      if (blockToJson b').compress != (blockToJson r).compress then "result"
+      else if !noGhostB b2 then "ghost-free"
+      else if !wfB bg then "wf"
+      else if !okBb fields bg noFacts then "launch-total"
+      else if !(readsB b).all (· < fresh) then "reads"
+      else ""
+    | none, _, _, _ => "not-applicable"
+    | _, _, _, _ => "side"
+  return Json.mkObj [("after", jOpt blockToJson after), ("covered", Json.bool (why == "")), ("why", Json.str why),
     ("wf", Json.bool (wfB b)), ("nodup", Json.bool (nodupB b))]
 
 def handlers : List (String × Handler) := [("c06.witness", witness), ("c06.move", move), ("c06.loop", loopOverlap)]
